@@ -21,7 +21,7 @@ import (
 
 func init() {
 	registry["C18"] = func(rep *core.Report) {
-		shards := []string{"after", "before", "once", "retry", "retrydelay"}
+		shards := []string{"after", "before", "once", "once-more", "before-more", "retry", "retrydelay"}
 		rep.Set("engine", "vrt+explore (choice-only and virtual time): every n in -2..8 x every number of calls 0..12 x every success/failure pattern of the callback (Choose inside the callback) on the real wrappers")
 		if !runWorkers(rep, "C18worker", shards, nil) {
 			fmt.Fprintln(os.Stderr, "C18: worker failure")
@@ -65,6 +65,43 @@ func c18worker(arg string) {
 			for _, zeroFirst := range []bool{false, true} {
 				c18once(c, calls, false, zeroFirst)
 				c18once(c, calls, true, zeroFirst)
+			}
+		}
+	case "once-more":
+		// other lifetimes, the cache's own cleanup goroutine sweeping between the calls, and a result
+		// type whose zero value is an empty (named) string
+		mc := 4
+		if thorough {
+			mc = 5
+		}
+		for calls := 1; calls <= mc; calls++ {
+			for _, lc := range [][2]int{{5, 4}, {7, 4}, {7, 0}, {3, 2}} {
+				if lc[1] > 0 && calls > 4 && !thorough {
+					continue
+				}
+				c18onceT(c, calls, lc[0], lc[1], c18ints(false))
+			}
+			for z := 1; z <= 2; z++ {
+				c18onceT(c, calls, 0, 0, c18shouts(z))
+				c18onceT(c, calls, 5, 0, c18shouts(z))
+			}
+			if calls <= 3 {
+				c18onceT(c, calls, 7, 4, c18shouts(1))
+			}
+		}
+	case "before-more":
+		for n1 := 1; n1 <= 3; n1++ {
+			for n2 := -1; n2 <= 3; n2++ {
+				for calls := 0; calls <= 4; calls++ {
+					if thorough || (n1 <= 2 && n2 >= 0 && n2 <= 2 && calls <= 3) {
+						c18beforeRoundsT(c, n1, n2, calls, 7, 4, c18ints(false))
+					}
+					for _, z := range []int{n1, n1 + n2, n1 + 1} {
+						if z >= 1 {
+							c18beforeRoundsT(c, n1, n2, calls, 0, 0, c18shouts(z))
+						}
+					}
+				}
 			}
 		}
 	case "retry":
@@ -152,50 +189,103 @@ func c18before(c *c20ctx, n, calls int) {
 
 // zeroFirst: the callback's first result is the zero value of its type (a legitimate result: 0, false,
 // nil), later results are distinct non-zero values.
-func c18once(c *c20ctx, calls int, expiring, zeroFirst bool) {
-	base := 100
+// c18codec: the callback's results as a function of the invocation number, for one result type.
+type c18codec[T comparable] struct {
+	name string
+	enc  func(inv int) T
+}
+
+type c18shout string // a named string type: its empty value is an ordinary result
+
+func c18ints(zeroFirst bool) c18codec[int] {
 	if zeroFirst {
-		base = -1 // results 0, 1, 2, ...
+		return c18codec[int]{"int, first result is the zero value", func(inv int) int { return inv - 1 }}
 	}
+	return c18codec[int]{"int", func(inv int) int { return 100 + inv }}
+}
+
+// c18shouts: results "r1", "r2", ... except that invocation zeroAt returns "".
+func c18shouts(zeroAt int) c18codec[c18shout] {
+	return c18codec[c18shout]{fmt.Sprintf("named string type, result %d is empty", zeroAt), func(inv int) c18shout {
+		if inv == zeroAt {
+			return ""
+		}
+		return c18shout(fmt.Sprint("r", inv))
+	}}
+}
+
+// c18cache builds the cache handed to Once/Before: lifetime in units (0: entries never expire) and
+// the interval of the cache's own cleanup goroutine (0: none). With a cleanup goroutine the explorer
+// also interleaves its sweeps with the calls.
+func c18cache[T any](lifetime, cleanup int) *cache.Cache[string, T] {
+	exp, cl := cache.DefaultExpiration, cache.NoExpiration
+	if lifetime > 0 {
+		exp = time.Duration(lifetime) * unit
+	}
+	if cleanup > 0 {
+		cl = time.Duration(cleanup) * unit
+	}
+	n0 := vrt.ThreadCount()
+	ca := cache.New[string, T](exp, cl)
+	vrt.MarkSpawnedSinceDaemon(n0)
+	return ca
+}
+
+func c18once(c *c20ctx, calls int, expiring, zeroFirst bool) {
+	lifetime := 0
+	if expiring {
+		lifetime = 5
+	}
+	c18onceT(c, calls, lifetime, 0, c18ints(zeroFirst))
+}
+
+// c18onceT: `calls` calls of Once on one cache; with a finite lifetime the harness chooses how far the
+// clock moves before each call (0, 2, 4 or 6 units; lifetimes are odd, so no call coincides with a
+// deadline). While the entry of the storing call lives (t < stored + lifetime) the callback must not
+// run and the first result is returned; otherwise it runs exactly once and its result is stored.
+func c18onceT[T comparable](c *c20ctx, calls, lifetime, cleanup int, cd c18codec[T]) {
 	type rec struct {
 		t    int64
 		runs int
-		ret  int
+		inv  int
+		ret  T
 	}
 	var recs []rec
-	var runTimes []int64
-	name := fmt.Sprintf("Once(%d calls, expiring-entry=%t, first-result-is-zero=%t)", calls, expiring, zeroFirst)
-	c.explore(name, 0, func() {
-		recs = recs[:0]
-		runTimes = runTimes[:0]
-		exp := cache.DefaultExpiration
-		var ca *cache.Cache[string, int]
-		if expiring {
-			ca = cache.New[string, int](5*unit, cache.NoExpiration)
-		} else {
-			ca = cache.New[string, int](exp, cache.NoExpiration)
+	name := fmt.Sprintf("Once(%d calls, expiring-entry=%t, first-result-is-zero=%t)", calls, lifetime > 0, cd.name == c18ints(true).name)
+	if cleanup > 0 || lifetime > 5 || (cd.name != c18ints(true).name && cd.name != c18ints(false).name) {
+		name = fmt.Sprintf("Once(%d calls, lifetime=%d, cleanup-interval=%d, results: %s)", calls, lifetime, cleanup, cd.name)
+	}
+	bound := 0
+	if cleanup > 0 {
+		bound = 3 // with the cleanup goroutine: every schedule with at most three preemptions
+		if thorough {
+			bound = 5
 		}
+	}
+	c.explore(name, bound, func() {
+		recs = recs[:0]
+		ca := c18cache[T](lifetime, cleanup)
 		inv := 0
 		for i := 0; i < calls; i++ {
-			if expiring {
-				// the harness chooses how far the clock moves between calls
+			if lifetime > 0 {
 				vrt.Advance(time.Duration(2*vrt.Choose(4)) * unit)
 			}
 			before := inv
 			t := now()
-			r := gogu.Once[string, int, int](ca, func() int { inv++; runTimes = append(runTimes, now()); return base + inv })
-			recs = append(recs, rec{t, inv - before, r})
+			r := gogu.Once[string, T, int](ca, func() T { inv++; return cd.enc(inv) })
+			recs = append(recs, rec{t, inv - before, inv, r})
 		}
 	}, func(x *vrt.Exec) (string, string) {
-		liveSince, liveVal := int64(-1), 0
+		liveSince := int64(-1)
+		var liveVal T
 		for i, r := range recs {
-			live := liveSince >= 0 && (!expiring || r.t < liveSince+5)
+			live := liveSince >= 0 && (lifetime == 0 || r.t < liveSince+int64(lifetime))
 			if live {
 				if r.runs != 0 {
-					return "Once/runs-again-while-entry-lives", fmt.Sprintf("call %d at time %d ran the callback %d time(s) although the entry stored at %d is still alive", i+1, r.t, r.runs, liveSince)
+					return "Once/runs-again-while-entry-lives", fmt.Sprintf("call %d at time %d ran the callback %d time(s) although the entry stored at %d (lifetime %d) is still alive", i+1, r.t, r.runs, liveSince, lifetime)
 				}
 				if r.ret != liveVal {
-					return "Once/returns-other-than-first-result", fmt.Sprintf("call %d returned %d, want the first result %d", i+1, r.ret, liveVal)
+					return "Once/returns-other-than-first-result", fmt.Sprintf("call %d returned %v, want the first result %v", i+1, r.ret, liveVal)
 				}
 				continue
 			}
@@ -203,8 +293,8 @@ func c18once(c *c20ctx, calls int, expiring, zeroFirst bool) {
 				return fmt.Sprintf("Once/callback-runs-%d-times-on-the-storing-call", r.runs), fmt.Sprintf("call %d at time %d (no live entry) ran the callback %d times, want exactly once", i+1, r.t, r.runs)
 			}
 			liveSince = r.t
-			if r.ret <= base || r.ret > base+calls {
-				return "Once/wrong-result", fmt.Sprintf("call %d returned %d, which no run of the callback produced", i+1, r.ret)
+			if r.ret != cd.enc(r.inv) {
+				return "Once/wrong-result", fmt.Sprintf("call %d ran the callback (invocation %d, result %v) and returned %v", i+1, r.inv, cd.enc(r.inv), r.ret)
 			}
 			liveVal = r.ret
 		}
@@ -319,23 +409,49 @@ func c18retryD(c *c20ctx, n int, withDelay bool, delay time.Duration) {
 // round 1 with n1 and n1+1 calls, round 2 with n2 and `calls` calls. In each round the callback runs
 // on each of the first n calls and never again; every call returns the result of the most recent run.
 func c18beforeRounds(c *c20ctx, n1, n2, calls int) {
-	var runOn, got []int
+	c18beforeRoundsT(c, n1, n2, calls, 0, 0, c18ints(false))
+}
+
+// c18beforeRoundsT: with a finite lifetime (and the cache's cleanup goroutine) the harness may move the
+// clock by 2 units before a call as long as the entry stored by the round's last run stays alive
+// (the statement promises the last result, it says nothing about a cache that forgets it).
+func c18beforeRoundsT[T comparable](c *c20ctx, n1, n2, calls, lifetime, cleanup int, cd c18codec[T]) {
+	var runOn []int
+	var got []T
 	var round []int
 	name := fmt.Sprintf("Before twice on one cache (n=%d with %d calls, then n=%d with %d calls)", n1, n1+1, n2, calls)
-	c.explore(name, 0, func() {
+	if lifetime > 0 || cd.name != c18ints(false).name {
+		name += fmt.Sprintf(" lifetime=%d, cleanup-interval=%d, results: %s", lifetime, cleanup, cd.name)
+	}
+	bound := 0
+	if cleanup > 0 {
+		bound = 3
+		if thorough {
+			bound = 5
+		}
+	}
+	c.explore(name, bound, func() {
 		runOn, got, round = runOn[:0], got[:0], round[:0]
-		ca := cache.New[string, int](cache.DefaultExpiration, cache.NoExpiration)
+		ca := c18cache[T](lifetime, cleanup)
 		inv := 0
+		stored := int64(-1)
 		for r, cfg := range [][2]int{{n1, n1 + 1}, {n2, calls}} {
 			nn := cfg[0]
 			for i := 0; i < cfg[1]; i++ {
+				if lifetime > 0 && (stored < 0 || now()+2 < stored+int64(lifetime)) && vrt.Choose(2) == 1 {
+					vrt.Advance(2 * unit)
+				}
 				ran := 0
-				g := gogu.Before(&nn, ca, func() int { inv++; ran = inv; return 100 + inv })
+				t := now()
+				g := gogu.Before(&nn, ca, func() T { inv++; ran = inv; return cd.enc(inv) })
+				if ran != 0 && i+1 == cfg[0] {
+					stored = t // the round's last run: its result is what the cache must keep
+				}
 				runOn, got, round = append(runOn, ran), append(got, g), append(round, r+1)
 			}
 		}
 	}, func(x *vrt.Exec) (string, string) {
-		last := 0
+		var last T
 		idx := 0
 		for r, cfg := range [][2]int{{n1, n1 + 1}, {n2, calls}} {
 			for i := 0; i < cfg[1]; i++ {
@@ -348,10 +464,10 @@ func c18beforeRounds(c *c20ctx, n1, n2, calls int) {
 					return "Before/reused-cache/" + cls, fmt.Sprintf("round %d (n=%d): on call %d the callback ran=%t, want %t", r+1, cfg[0], i+1, runOn[idx] != 0, wantRun)
 				}
 				if wantRun {
-					last = 100 + runOn[idx]
+					last = cd.enc(runOn[idx])
 				}
 				if got[idx] != last {
-					return "Before/reused-cache/wrong-result", fmt.Sprintf("round %d (n=%d): call %d returned %d, want %d (the result of the most recent run)", r+1, cfg[0], i+1, got[idx], last)
+					return "Before/reused-cache/wrong-result", fmt.Sprintf("round %d (n=%d): call %d returned %v, want %v (the result of the most recent run)", r+1, cfg[0], i+1, got[idx], last)
 				}
 				idx++
 			}
